@@ -12,6 +12,9 @@ not the last may be short or empty and still carry a nextLink) is served through
   status / url for HTTP and network failures), every response object handed out so far has been closed, the
   caches hold only what a successful response delivered, and the retry on the healed transport returns the
   complete listing.
+* (round 6) paging links carry query strings ($skiptoken / signature styles), so `exc.url` is compared against such URLs too;
+  `check_crafted_patterns`: path patterns whose wildcards span `/` against files above / at / below the pattern's directory depth;
+  `check_error_fields`: the request error reports the status and URL it was constructed with.
 """
 import fnmatch
 import logging
@@ -212,6 +215,11 @@ class OldStyleResponse(FakeResponse):
         return object.__getattribute__(self, "__dict__")["status"]
 
 
+class BrokenBodyResponse(FakeResponse):
+    def read(self):
+        raise ConnectionResetError(104, "injected: connection reset while reading the body")
+
+
 class FakeGraph:
     """request_func for SharePointRestClient: serves one library; `fault` = (request index, kind) or None."""
 
@@ -240,7 +248,7 @@ class FakeGraph:
         assert req.get_header("Authorization") == "Bearer TOK", req.headers
         drive = "drive" if self.drive_id is None else f"drives/{self.drive_id}"
         if url.startswith(GRAPH + "/next/"):
-            fid, start = url[len(GRAPH + "/next/"):].split("/")
+            fid, start = url[len(GRAPH + "/next/"):].split("?")[0].split("/")
             return self.page(self.by_id[fid], int(start))
         m = re.match(re.escape(GRAPH) + r"/sites/([^/]+)/" + re.escape(drive) + r"/root/children\?\$expand=listItem\(\$expand=fields\)$", url)
         if m and m.group(1) == "SITE":
@@ -269,8 +277,17 @@ class FakeGraph:
         if not chunk and self.omit_empty_value:
             body = {}
         if start + self.page_size < len(items):
-            body["@odata.nextLink"] = f"{GRAPH}/next/{folder.id}/{start + self.page_size}"
+            body["@odata.nextLink"] = f"{GRAPH}/next/{folder.id}/{start + self.page_size}" + self.next_query(folder, start)
         return 200, json.dumps(body).encode()
+
+    # Paging links are opaque to the client: Graph's carry a query string ($skiptoken, often next to $expand / $top; some
+    # services add signatures).  The link styles are mixed per folder and page (no use of the random stream), so a fault on a
+    # later page is reported against a URL with a query string as well as against a plain one.
+    NEXT_QUERIES = ("", "?$skiptoken=UGFnZWQ9VFJVRSZwX0lEPTEy", "?$expand=listItem($expand=fields)&$top=2&$skiptoken=MSZzaWc9",
+                    "?%24skiptoken=p2&sig=Zm9v%2Bbar&tempauth=v1.e30")
+
+    def next_query(self, folder, start):
+        return self.NEXT_QUERIES[(sum(map(ord, str(folder.id))) + start // self.page_size) % len(self.NEXT_QUERIES)]
 
     # -- transport ---------------------------------------------------------------
     def __call__(self, req, timeout=None):
@@ -286,6 +303,8 @@ class FakeGraph:
                 raise HTTPError(req.full_url, int(kind[4:]), "injected", {}, fp)
             if kind == "urlerror":
                 raise URLError("injected: connection refused")
+            if kind == "readerror":
+                return BrokenBodyResponse(200, b"", self.responses)
             if kind == "badjson":
                 return FakeResponse(200, b'{"value": [', self.responses)
             if kind == "badutf8":
@@ -307,7 +326,9 @@ class FakeGraph:
 
 
 FAULT_KINDS = ["http404", "http401", "http500", "http503", "urlerror", "badjson", "badutf8", "emptybody", "blankbody", "status302", "status500",
-               "statusNone"]
+               "statusNone", "readerror"]
+# "readerror": the response object is handed out and its read() fails (connection reset in mid-body).  Not one of the statement's
+# fault kinds: which exception escapes is not judged, only that the response was closed, nothing cached and the retry complete.
 
 
 def make_client(graph):
@@ -409,6 +430,8 @@ def check_listing(seed, kind="all", fd=None, page_size=None, drive_id=None, faul
             if exc is None:
                 if not tolerated:
                     return dict(rec, expected="an error of the client's family", observed=f"call returned {len(res)} records")
+            elif fk == "readerror":
+                pass
             else:
                 if not isinstance(exc, SharePointError):
                     return dict(rec, expected="an error of the client's own family (SharePointError)",
@@ -677,6 +700,57 @@ def check_crafted(targets=None, extra_filter=None):
     return None
 
 
+CRAFTED_PATTERNS = [["Reports/*"], ["Docs/*.pdf"], ["*/Q1/*", "Archive/*"], ["Reports*/*.pdf"], ["*Final/final.pdf"], ["D*/Q1?/[bc].*"],
+                    ["Reports/r*", "*.txt"], ["*/*/*"], ["**/d*.pdf"], ["Reports 2024/**"], ["?eports/Drafts/*", "nope/*"], ["*draft*"],
+                    ["Drafts/*"], ["/Reports/*"], ["reports/*"]]
+
+
+def check_crafted_patterns(patterns=None):
+    """path_patterns apply to the FULL path with fnmatch semantics (a `*` spans `/`): whole-drive and per-folder filtered
+    listings over the crafted library (files at, above and below the depth of the pattern's directory part) == reference."""
+    root = crafted_tree()
+    for pats in ([patterns] if patterns else CRAFTED_PATTERNS):
+        for page, extra in ((2, {}), (5, {"extensions": [".pdf"]}), (1, {"folder_paths": ["Reports", "Docs", "Reports 2024"]})):
+            fd = dict(extra, path_patterns=pats)
+            want = sorted(reference(root, "filtered", fd))
+            c = make_client(FakeGraph(root, page))
+            try:
+                got = [rec_of(m) for m in c.list_files_filtered(mk_filter(fd))]
+            except Exception as e:  # noqa
+                got = f"{type(e).__name__}: {e}"
+            if not isinstance(got, list) or sorted(got) != want:
+                missing = [r for r in want if not isinstance(got, list) or r not in got]
+                extra_ = [r for r in got if r not in want] if isinstance(got, list) else []
+                return {"target": "sharepoint2text/sharepoint_io/client.py::SharePointRestClient.list_files_filtered",
+                        "inputs": {"library": "crafted_tree()", "filter": fd, "page_size": page},
+                        "expected": f"every file whose full path matches a pattern, exactly once ({len(want)} records)",
+                        "observed": f"{got if not isinstance(got, list) else len(got)} records; missing={missing[:4]} unexpected={extra_[:4]}"}
+    return None
+
+
+def check_error_fields(extra_urls=()):
+    """The request error reports the status and the URL it was constructed with (whatever the URL looks like)."""
+    from sharepoint2text.sharepoint_io.exceptions import SharePointRequestError
+    base = GRAPH + "/sites/SITE/drive/items/F1/children"
+    urls = [base, base + "?$expand=listItem($expand=fields)", "https://login.microsoftonline.com/tenant/oauth2/v2.0/token", "",
+            "not a url", "https://h/p?a=1#frag", "HTTPS://Host:443/A%20b/../c?x=%2F&Token=abc", "http://[::1", "//h/p?sig=1", "?token",
+            GRAPH + "/sites/SITE/drive/root:/Q1%20Reports/a%26b"] + [GRAPH + "/next/F1/2" + q for q in FakeGraph.NEXT_QUERIES]
+    for url in list(extra_urls) + urls:
+        for status in (None, 0, 200, 302, 404, 503):
+            for body in (None, "", '{"error": {"code": "itemNotFound"}}'):
+                rec = {"target": "sharepoint2text/sharepoint_io/exceptions.py::SharePointRequestError.__init__",
+                       "inputs": {"message": "API request failed", "status_code": status, "body": body, "url": url},
+                       "expected": f"status_code={status!r}, url={url!r}"}
+                try:
+                    e = SharePointRequestError("API request failed", status_code=status, body=body, url=url)
+                except Exception as ex:  # noqa
+                    return dict(rec, observed=f"constructor raised {type(ex).__name__}: {ex}")
+                got = (getattr(e, "status_code", "<missing>"), getattr(e, "url", "<missing>"))
+                if got != (status, url) or type(got[1]) is not str:
+                    return dict(rec, observed=f"status_code={got[0]!r}, url={got[1]!r}")
+    return None
+
+
 def check_known_overlap(witness):
     """Known finding C18-overlapping-targets: a requested folder together with one of its descendants is walked twice."""
     tg = (witness or {}).get("folder_paths") or ["Docs", "Docs/Q1"]
@@ -728,7 +802,8 @@ def listing_filters():
 
 
 def suite(seeds=range(6), fault_seeds=range(3), quick=False):
-    r = check_parse_assumptions() or check_misc_filter() or check_filter_boundaries() or check_target_folders() or check_crafted()
+    r = check_parse_assumptions() or check_misc_filter() or check_filter_boundaries() or check_target_folders() or check_crafted() or check_crafted_patterns() \
+        or check_error_fields()
     if r is not None:
         return r
     for seed in seeds:
@@ -783,6 +858,13 @@ def find(req):
                                                  "12 fault kinds at every request index, crafted prefix / percent-escape siblings)"}
         r["reproduced"] = True
         return r
+    if "SharePointRequestError" in ob:
+        w = req.get("witness") or {}
+        r = check_error_fields([v for v in w.values() if isinstance(v, str)] if isinstance(w, dict) else ()) or suite(quick=True)
+        if r is None:
+            return {"reproduced": False, "note": "request errors built from 15 URL shapes x 6 statuses x 3 bodies report what they were given"}
+        r["reproduced"] = True
+        return r
     if "get_target_folders" in ob or "_since" in ob:
         r = (check_target_folders() if "get_target_folders" in ob else None) or check_crafted()
         if r is None:
@@ -824,8 +906,14 @@ def rerun(stored):
         else:
             r = check_one_filter(fd, inp["file"].get("name", ""), inp["file"].get("parent_path"))
         return dict(r or {}, reproduced=r is not None)
+    if "status_code" in inp and "url" in inp:
+        r = check_error_fields([inp["url"]])
+        return dict(r or {}, reproduced=r is not None)
     if "folder_paths" in inp and "library" not in inp:
         r = check_targets_once(inp["folder_paths"])
+        return dict(r or {}, reproduced=r is not None)
+    if inp.get("library") == "crafted_tree()" and "filter" in inp:
+        r = check_crafted_patterns(inp["filter"].get("path_patterns"))
         return dict(r or {}, reproduced=r is not None)
     if inp.get("library") == "crafted_tree()":
         r = check_crafted(inp["folder_paths"])
